@@ -24,6 +24,14 @@ def cases(tier):
         if tier == 'thorough':
             L.append(fsm_case('C01', fx, 'req2_update', base + ['ENTRY=3', 'NREQ=2', 'EXT_KINDS=' + kinds], timeout=1800))
             L.append(fsm_case('C01', fx, 'construct', ['FROM_CONSTRUCTION', 'ENTRY=1', 'P_C01', 'CB_KINDS=' + kinds, 'CB_BUDGET=1'], timeout=1800, witness=False))
+    if tier == 'thorough':
+        # deep nesting below an orthogonal region: every ordered pair of destinations of a 2-request batch (kinds symbolic), callbacks silent
+        o = dict(sublimit=2, callbacks=['guard', 'life', 'select'], act=[], kinds=0)
+        fx = fixture('C01', 'fdo', o)
+        ns = fx['T'].ns
+        for a in range(ns):
+            for b in range(ns):
+                L.append(fsm_case('C01', fx, 'req2_d%d_d%d' % (a, b), ['P_C01', 'ENTRY=3', 'NREQ=2', 'EXT_KINDS=0x1e', 'DEST0=%d' % a, 'DEST1=%d' % b, 'CB_BUDGET=0', 'NO_CANCEL'], timeout=900, witness=False))
     return L
 
 def run(tier, seed):
